@@ -231,7 +231,12 @@ fn run_case(c: &GsCase) -> (Vec<u32>, Vec<u32>, bool) {
             let s2 = p.generate_state().unwrap();
             let a = osu_perf(c).calculate().unwrap().json();
             let b = osu_perf(c).state(s1.clone()).calculate().unwrap().json();
-            (osu_state_vec(&s1), osu_state_vec(&s2), a == b)
+            // the same state handed over through the mode-agnostic ScoreState / Performance enum
+            let g = match rosu_pp::Performance::Osu(osu_perf(c)).state(rosu_pp::any::ScoreState::from(s1.clone())).calculate() {
+                rosu_pp::any::PerformanceAttributes::Osu(x) => x.json(),
+                _ => String::new(),
+            };
+            (osu_state_vec(&s1), osu_state_vec(&s2), a == b && g == b)
         }
         1 => {
             let v = |s: &TaikoScoreState| vec![s.max_combo, s.n300, s.n100, s.misses];
@@ -239,8 +244,12 @@ fn run_case(c: &GsCase) -> (Vec<u32>, Vec<u32>, bool) {
             let s1 = p.generate_state().unwrap();
             let s2 = p.generate_state().unwrap();
             let a = taiko_perf(c).calculate().unwrap().json();
-            let b = taiko_perf(c).state(s1).calculate().unwrap().json();
-            (v(&s1), v(&s2), a == b)
+            let b = taiko_perf(c).state(s1.clone()).calculate().unwrap().json();
+            let g = match rosu_pp::Performance::Taiko(taiko_perf(c)).state(rosu_pp::any::ScoreState::from(s1.clone())).calculate() {
+                rosu_pp::any::PerformanceAttributes::Taiko(x) => x.json(),
+                _ => String::new(),
+            };
+            (v(&s1), v(&s2), a == b && g == b)
         }
         2 => {
             let v = |s: &CatchScoreState| {
@@ -258,7 +267,11 @@ fn run_case(c: &GsCase) -> (Vec<u32>, Vec<u32>, bool) {
             let s2 = p.generate_state().unwrap();
             let a = catch_perf(c).calculate().unwrap().json();
             let b = catch_perf(c).state(s1.clone()).calculate().unwrap().json();
-            (v(&s1), v(&s2), a == b)
+            let g = match rosu_pp::Performance::Catch(catch_perf(c)).state(rosu_pp::any::ScoreState::from(s1.clone())).calculate() {
+                rosu_pp::any::PerformanceAttributes::Catch(x) => x.json(),
+                _ => String::new(),
+            };
+            (v(&s1), v(&s2), a == b && g == b)
         }
         _ => {
             let v = |s: &ManiaScoreState| vec![s.n320, s.n300, s.n200, s.n100, s.n50, s.misses];
@@ -267,7 +280,11 @@ fn run_case(c: &GsCase) -> (Vec<u32>, Vec<u32>, bool) {
             let s2 = p.generate_state().unwrap();
             let a = mania_perf(c).calculate().unwrap().json();
             let b = mania_perf(c).state(s1.clone()).calculate().unwrap().json();
-            (v(&s1), v(&s2), a == b)
+            let g = match rosu_pp::Performance::Mania(mania_perf(c)).state(rosu_pp::any::ScoreState::from(s1.clone())).calculate() {
+                rosu_pp::any::PerformanceAttributes::Mania(x) => x.json(),
+                _ => String::new(),
+            };
+            (v(&s1), v(&s2), a == b && g == b)
         }
     }
 }
